@@ -2,6 +2,8 @@ package main
 
 import (
 	"crypto"
+	_ "crypto/md5"
+	_ "crypto/sha1"
 	_ "crypto/sha256"
 	_ "crypto/sha512"
 
@@ -161,6 +163,40 @@ func recC14(c *ctx) {
 			}
 		}
 	}
+	// ---- suites with a hash function too weak for the 128-bit target (digest below 32 bytes): every generic XMD suite
+	// must fail with an error and no point (RFC 9380 5.3.1: expand_message_xmd aborts)
+	for _, wh := range []struct {
+		name string
+		h    crypto.Hash
+		b    int
+	}{{"md5", crypto.MD5, 16}, {"sha1", crypto.SHA1, 20}, {"sha224", crypto.SHA224, 28}, {"sha512_224", crypto.SHA512_224, 28}} {
+		if !wh.h.Available() {
+			continue
+		}
+		dst, msg := r.Bytes(16), r.Bytes(10)
+		for _, kind := range []string{"ro", "nu", "r255"} {
+			var err error
+			ptnil := true
+			nbytes := map[string]int{"ro": 96, "nu": 48, "r255": 64}[kind]
+			if !c.try("suiteabort", vt.Ev{"kind": kind, "hash": wh.name}, func() {
+				switch kind {
+				case "ro":
+					p, er := h2c.Edwards25519_XMD_ELL2_RO(wh.h, dst, msg)
+					err, ptnil = er, p == nil
+				case "nu":
+					p, er := h2c.Edwards25519_XMD_ELL2_NU(wh.h, dst, msg)
+					err, ptnil = er, p == nil
+				case "r255":
+					p, er := h2c.Ristretto255_XMD_R255MAP_RO(wh.h, dst, msg)
+					err, ptnil = er, p == nil
+				}
+			}) {
+				continue
+			}
+			c.w.Emit(vt.Ev{"op": "suiteabort", "cfg": c.cfg, "kind": kind, "hash": wh.name, "b": wh.b, "n": nbytes, "ok": err == nil, "ptnil": ptnil,
+				"sha": []vt.Ev{}})
+		}
+	}
 	// ---- suites
 	n := c.budget(16, 240)
 	for i := 0; i < n; i++ {
@@ -170,63 +206,67 @@ func recC14(c *ctx) {
 		e := vt.Ev{"op": "suite", "cfg": c.cfg, "dst": vt.B(dst), "msg": vt.B(msg)}
 		var enc []byte
 		var err error
-		switch i % 8 {
-		case 6:
-			e["suite"], e["n"], e["kind"], e["hash"], e["b"], e["r"] = "edwards25519_XMD:SHA-384_ELL2_NU_", 48, "nu", "sha384", 48, 128
-			t.xmd(crypto.SHA384, dst, msg, 48)
-			p, er := h2c.Edwards25519_XMD_ELL2_NU(crypto.SHA384, dst, msg)
-			if err = er; er == nil {
-				enc, _ = p.MarshalBinary()
+		if !c.try("suite", vt.Ev{"i": i % 8}, func() {
+			switch i % 8 {
+			case 6:
+				e["suite"], e["n"], e["kind"], e["hash"], e["b"], e["r"] = "edwards25519_XMD:SHA-384_ELL2_NU_", 48, "nu", "sha384", 48, 128
+				t.xmd(crypto.SHA384, dst, msg, 48)
+				p, er := h2c.Edwards25519_XMD_ELL2_NU(crypto.SHA384, dst, msg)
+				if err = er; er == nil {
+					enc, _ = p.MarshalBinary()
+				}
+			case 7:
+				e["suite"], e["n"], e["kind"], e["xof"] = "edwards25519_XOF:SHAKE128_ELL2_NU_", 48, "nu", "shake128"
+				t.xof(xofs["shake128"], dst, msg, 48)
+				p, er := h2c.Edwards25519_XOF_ELL2_NU(xofs["shake128"], dst, msg)
+				if err = er; er == nil {
+					enc, _ = p.MarshalBinary()
+				}
+			case 0:
+				e["suite"], e["n"], e["kind"], e["hash"], e["b"], e["r"] = "edwards25519_XMD:SHA-512_ELL2_RO_", 96, "ro", "sha512", 64, 128
+				t.xmd(crypto.SHA512, dst, msg, 96)
+				p, er := h2c.Edwards25519_XMD_SHA512_ELL2_RO(dst, msg)
+				if err = er; er == nil {
+					enc, _ = p.MarshalBinary()
+				}
+			case 1:
+				e["suite"], e["n"], e["kind"], e["hash"], e["b"], e["r"] = "edwards25519_XMD:SHA-512_ELL2_NU_", 48, "nu", "sha512", 64, 128
+				t.xmd(crypto.SHA512, dst, msg, 48)
+				p, er := h2c.Edwards25519_XMD_SHA512_ELL2_NU(dst, msg)
+				if err = er; er == nil {
+					enc, _ = p.MarshalBinary()
+				}
+			case 2:
+				e["suite"], e["n"], e["kind"], e["hash"], e["b"], e["r"] = "edwards25519_XMD:SHA-256_ELL2_RO_", 96, "ro", "sha256", 32, 64
+				t.xmd(crypto.SHA256, dst, msg, 96)
+				p, er := h2c.Edwards25519_XMD_ELL2_RO(crypto.SHA256, dst, msg)
+				if err = er; er == nil {
+					enc, _ = p.MarshalBinary()
+				}
+			case 3:
+				e["suite"], e["n"], e["kind"], e["xof"] = "edwards25519_XOF:SHAKE256_ELL2_RO_", 96, "ro", "shake256"
+				t.xof(xofs["shake256"], dst, msg, 96)
+				p, er := h2c.Edwards25519_XOF_ELL2_RO(xofs["shake256"], dst, msg)
+				if err = er; er == nil {
+					enc, _ = p.MarshalBinary()
+				}
+			case 4:
+				e["suite"], e["n"], e["kind"], e["hash"], e["b"], e["r"] = "ristretto255_XMD:SHA-512_R255MAP_RO_", 64, "r255", "sha512", 64, 128
+				t.xmd(crypto.SHA512, dst, msg, 64)
+				p, er := h2c.Ristretto255_XMD_R255MAP_RO(crypto.SHA512, dst, msg)
+				if err = er; er == nil {
+					enc, _ = p.MarshalBinary()
+				}
+			case 5:
+				e["suite"], e["n"], e["kind"], e["xof"] = "ristretto255_XOF:SHAKE128_R255MAP_RO_", 64, "r255", "shake128"
+				t.xof(xofs["shake128"], dst, msg, 64)
+				p, er := h2c.Ristretto255_XOF_R255MAP_RO(xofs["shake128"], dst, msg)
+				if err = er; er == nil {
+					enc, _ = p.MarshalBinary()
+				}
 			}
-		case 7:
-			e["suite"], e["n"], e["kind"], e["xof"] = "edwards25519_XOF:SHAKE128_ELL2_NU_", 48, "nu", "shake128"
-			t.xof(xofs["shake128"], dst, msg, 48)
-			p, er := h2c.Edwards25519_XOF_ELL2_NU(xofs["shake128"], dst, msg)
-			if err = er; er == nil {
-				enc, _ = p.MarshalBinary()
-			}
-		case 0:
-			e["suite"], e["n"], e["kind"], e["hash"], e["b"], e["r"] = "edwards25519_XMD:SHA-512_ELL2_RO_", 96, "ro", "sha512", 64, 128
-			t.xmd(crypto.SHA512, dst, msg, 96)
-			p, er := h2c.Edwards25519_XMD_SHA512_ELL2_RO(dst, msg)
-			if err = er; er == nil {
-				enc, _ = p.MarshalBinary()
-			}
-		case 1:
-			e["suite"], e["n"], e["kind"], e["hash"], e["b"], e["r"] = "edwards25519_XMD:SHA-512_ELL2_NU_", 48, "nu", "sha512", 64, 128
-			t.xmd(crypto.SHA512, dst, msg, 48)
-			p, er := h2c.Edwards25519_XMD_SHA512_ELL2_NU(dst, msg)
-			if err = er; er == nil {
-				enc, _ = p.MarshalBinary()
-			}
-		case 2:
-			e["suite"], e["n"], e["kind"], e["hash"], e["b"], e["r"] = "edwards25519_XMD:SHA-256_ELL2_RO_", 96, "ro", "sha256", 32, 64
-			t.xmd(crypto.SHA256, dst, msg, 96)
-			p, er := h2c.Edwards25519_XMD_ELL2_RO(crypto.SHA256, dst, msg)
-			if err = er; er == nil {
-				enc, _ = p.MarshalBinary()
-			}
-		case 3:
-			e["suite"], e["n"], e["kind"], e["xof"] = "edwards25519_XOF:SHAKE256_ELL2_RO_", 96, "ro", "shake256"
-			t.xof(xofs["shake256"], dst, msg, 96)
-			p, er := h2c.Edwards25519_XOF_ELL2_RO(xofs["shake256"], dst, msg)
-			if err = er; er == nil {
-				enc, _ = p.MarshalBinary()
-			}
-		case 4:
-			e["suite"], e["n"], e["kind"], e["hash"], e["b"], e["r"] = "ristretto255_XMD:SHA-512_R255MAP_RO_", 64, "r255", "sha512", 64, 128
-			t.xmd(crypto.SHA512, dst, msg, 64)
-			p, er := h2c.Ristretto255_XMD_R255MAP_RO(crypto.SHA512, dst, msg)
-			if err = er; er == nil {
-				enc, _ = p.MarshalBinary()
-			}
-		case 5:
-			e["suite"], e["n"], e["kind"], e["xof"] = "ristretto255_XOF:SHAKE128_R255MAP_RO_", 64, "r255", "shake128"
-			t.xof(xofs["shake128"], dst, msg, 64)
-			p, er := h2c.Ristretto255_XOF_R255MAP_RO(xofs["shake128"], dst, msg)
-			if err = er; er == nil {
-				enc, _ = p.MarshalBinary()
-			}
+		}) {
+			continue
 		}
 		e["ok"], e["sha"] = err == nil, t.ents
 		if err == nil {
